@@ -3,7 +3,9 @@ package soyhtml
 import (
 	"bytes"
 
+	"github.com/robfig/soy/ast"
 	"github.com/robfig/soy/data"
+	"github.com/robfig/soy/soymsg"
 )
 
 // faultWriter injects write failures. mode 0: fails (and keeps failing) from the Write call on
@@ -79,6 +81,41 @@ var c12Templates = []string{
 	"{namespace a}\n/** @param x */\n{template .t}\n{foreach $i in [1,2]}{$i}{$x}{ifempty}none{/foreach}{call .u data=\"all\"/}{switch $x}{case '<'}lt{default}other{/switch}\n{/template}\n/** @param x */\n{template .u}\n{$x}{$x|id}\n{/template}\n",
 	// 5: a single escaped print with specials (several writes inside the escaper)
 	"{namespace a}\n/** @param x */\n{template .t}\n{$x}\n{/template}\n",
+	// 6: a loop over a longer list as the last output, and a longer for-range before it
+	"{namespace a}\n/** @param x */\n{template .t}\n{for $j in range(9)}{$j}{/for}{$x}{foreach $i in [1, 2, 3, 4, 5, 6, 7, 8, 9, 10]}{$i},{/foreach}\n{/template}\n",
+}
+
+// c12Bundle: a catalogue translating the message of template 2 (text and placeholder parts are
+// written by evalMsgParts).
+type c12Bundle struct{ id uint64 }
+
+func (b c12Bundle) Locale() string { return "xx" }
+func (b c12Bundle) Message(id uint64) *soymsg.Message {
+	if id != b.id {
+		return nil
+	}
+	return &soymsg.Message{ID: id, Parts: []soymsg.Part{soymsg.RawTextPart{Text: "Salut "}, soymsg.PlaceholderPart{Name: "START_BOLD"},
+		soymsg.PlaceholderPart{Name: "X"}, soymsg.PlaceholderPart{Name: "END_BOLD"}, soymsg.RawTextPart{Text: " la"}}}
+}
+func (b c12Bundle) PluralCase(n int) int { return 0 }
+
+func c12MsgID(t *Tofu) uint64 {
+	var id uint64
+	var walk func(n ast.Node)
+	walk = func(n ast.Node) {
+		if m, ok := n.(*ast.MsgNode); ok {
+			id = m.ID
+		}
+		if p, ok := n.(ast.ParentNode); ok {
+			for _, c := range p.Children() {
+				walk(c)
+			}
+		}
+	}
+	for _, tp := range t.registry.Templates {
+		walk(tp.Node)
+	}
+	return id
 }
 
 var c12Data = []string{"<", "a<b>&c", "", "\"'"}
@@ -89,13 +126,20 @@ func H_fault(t, d, mode int) {
 	tofu := verifMustCompile(c12Templates[t])
 	m := data.Map{"x": data.String(c12Data[d])}
 	var ref bytes.Buffer
-	verifAssert(tofu.NewRenderer("a.t").Execute(&ref, m) == nil, "fault-free render failed")
+	rend := func() *Renderer {
+		r := tofu.NewRenderer("a.t")
+		if t == 2 && d >= 2 {
+			r = r.WithMessages(c12Bundle{c12MsgID(tofu)}) // translated message: parts written by evalMsgParts
+		}
+		return r
+	}
+	verifAssert(rend().Execute(&ref, m) == nil, "fault-free render failed")
 	want := ref.String()
 	w := &faultWriter{mode: mode}
 	if mode == 2 {
 		w.capacity = verifChoose(len(want) + 1)
 	}
-	err := tofu.NewRenderer("a.t").Execute(w, m)
+	err := rend().Execute(w, m)
 	got := string(w.buf)
 	verifObserve("accepted", got)
 	verifObserveInt("writes", w.calls)
